@@ -33,7 +33,7 @@ CHECKS = {
             "text": "Conformance of TABEAM/EEAM output (classes and public functions) to the reference, and an identity proof in n = len(eampots) that the declared function count equals the number of blocks counted in the implementation's own output tree (n(n+1)/2 sorted unordered pairs + n + n or n*n).",
             "note": _N, "technique": "abstract interpretation to output-expression trees + symbolic block counting (polynomial identity in n)"},
     "C17": {"engine": "E-SYM", "level": "other", "design_ref": "DESIGN.md section 4 C17 and section 11",
-            "text": "Effect-order rule over all 11 registered tabulation classes: in the abstract evaluation of write(fp) no evaluation of a user-supplied callable may follow (or share a loop with) a write that reaches fp; action_tabulate builds before it opens the file. Lazy generators are modelled as interleaving with their consumer.",
+            "text": "Effect-order rule over every registered tabulation class (11 today): in the abstract evaluation of write(fp) no evaluation of a user-supplied callable may follow (or share a loop with) a write that reaches fp; action_tabulate builds before it opens the file and writes to the file it opened; open_fp(name) of every class opens the named file for writing. Lazy generators are modelled as interleaving with their consumer.",
             "note": "trusted: the abstract evaluator's effect log (EVAL = call of an opaque user callable, WRITE = write on the file parameter; StringIO writes are local). Not decided: I/O errors, failures inside openpyxl.save.",
             "technique": "effect/ordering analysis (EVAL* WRITE* typestate) over inlined call graph with loop nesting"},
 }
@@ -43,11 +43,11 @@ _F = ("exact exp-polynomial normal forms (rational coefficients, symbolic expone
 
 CHECKS.update({
     "C06": {"engine": "E-SYM", "level": "proof", "design_ref": "DESIGN.md section 4 C06 and section 11",
-            "text": "Identity proofs: for each of the 14 built-in forms the normal form of __call__ equals that of the manual's formula (sa/specs/forms.py) and of the class's _as_sympy sibling; parameter order equals the manual's ':potable signature:' (parsed on each run); the factory, registry ('as.NAME') and formula-call routes are evaluated through the real wrapper code and give the same normal form; arity checks raise. " + _F,
+            "text": "Identity proofs: for each of the 14 documented built-in forms (any further form the package registers gets every rule that needs no reference formula) the normal form of __call__ equals that of the manual's formula (sa/specs/forms.py) and of the class's _as_sympy sibling; parameter order equals the manual's ':potable signature:' (parsed on each run); the factory, registry ('as.NAME') and formula-call routes are evaluated through the real wrapper code and give the same normal form; arity checks raise. " + _F,
             "note": _N + " ZBL is proved against _as_sympy only (manual entry schematic). Tolerance 1e-9 relative on machine-generated constants.",
             "technique": "symbolic normal-form identity (term rewriting to canonical exp-polynomials) over abstractly evaluated source"},
     "C07": {"engine": "E-SYM", "level": "proof", "design_ref": "DESIGN.md section 4 C07 and section 11",
-            "text": "Identity proofs D(value) = deriv and D(deriv) = deriv2 by syntax-directed differentiation of normal forms for all built-in forms (polynomial orders 0..8), plus/product/pow over opaque operands (including mixed analytic/numeric operands), trans(), multi-range forms, splined potentials per region, Buck4 selection, factory wrappers and the table form's derivative objects; gradient()/num_deriv() bodies checked separately.",
+            "text": "Identity proofs D(value) = deriv and D(deriv) = deriv2 by syntax-directed differentiation of normal forms for all built-in forms (polynomial orders 0..8, thorough 0..16), plus/product/pow over opaque operands (including mixed analytic/numeric operands), trans(), multi-range forms, splined potentials per region, Buck4 selection, factory wrappers and the table form's derivative objects; gradient()/num_deriv() bodies checked separately.",
             "note": _N + " Accuracy of the h=1e-6 central difference and scipy's spline derivative are assumptions.",
             "technique": "symbolic differentiation + normal-form identity; Phi-tree (region) alignment"},
     "C08": {"engine": "E-SYM", "level": "proof", "design_ref": "DESIGN.md section 4 C08 and section 11",
@@ -55,10 +55,10 @@ CHECKS.update({
             "note": _N + " Exhaustive within the stated bound on the number of ranges.",
             "technique": "comparison-only dataflow premise + exhaustive finite-domain abstract evaluation (order types)"},
     "C10": {"engine": "E-SYM", "level": "other", "design_ref": "DESIGN.md section 4 C10 and section 11",
-            "text": "The spline-defining linear systems are extracted from _init_spline_coefficients by abstract evaluation and every row/right-hand side is proved to be the stated C2 / stationary-point constraint (Exp_Spline on both branches of the positivity shift, Buck4 as a set of 10 linear equations); region map, spline() modifier bindings, buck4 shorthand and region-wise derivatives are compared by role.",
+            "text": "The spline-defining linear systems are extracted by abstract evaluation of the public constructors Exp_Spline(...) / Buck4_Spline(...) (numpy.linalg.solve captured) and every row/right-hand side is proved to be the stated C2 / stationary-point constraint (Exp_Spline on both branches of the positivity shift, Buck4 as a set of 10 linear equations); region map, spline() modifier bindings, buck4 shorthand and region-wise derivatives are compared by role.",
             "note": _N + " Solvability/conditioning of numpy.linalg.solve is assumed.", "technique": "constraint-matrix extraction by abstract evaluation + row-wise normal-form identities"},
     "C11": {"engine": "E-SYM", "level": "other", "design_ref": "DESIGN.md section 4 C11 and section 11",
-            "text": "Exhaustive decision table (presence x sign of nr/dr/cutoff, both instances, 128 cases) of _init_cutoff by abstract evaluation with symbolic positive values; rounding-safe quotient-to-count idiom on the normal form (rejects bare truncation and tolerances below the quotient's rounding error); defaults and grid-step definitions.",
+            "text": "Exhaustive decision table (presence x sign of nr/dr/cutoff, both instances, 128 cases) of the [Tabulation] grid options, reached as potable reaches them (ConfigParser(text).tabulation on the configparser model) with symbolic positive values; rounding-safe quotient-to-count idiom on the normal form (rejects bare truncation and tolerances below the quotient's rounding error); defaults and grid-step definitions.",
             "note": _N, "technique": "finite-domain abstract evaluation + idiom rule on arithmetic normal forms"},
     "C13": {"engine": "E-SYM", "level": "other", "design_ref": "DESIGN.md section 4 C13 and section 11",
             "text": "Exhaustive filter table (all include/exclude sets over {A,B,C,unknown}, one- and two-species keys, four views) evaluated abstractly with wrapt.ObjectProxy's attribute forwarding modelled, a multi-view history for isolation, exhaustiveness of overridden views, and the CLI's presence tests.",
@@ -73,7 +73,7 @@ _L = ("configparser, wrapt, cexprtk, openpyxl, numpy and scipy are not analysed:
 
 CHECKS.update({
     "C09": {"engine": "E-SYM", "level": "other", "design_ref": "DESIGN.md section 4 C09 and section 11",
-            "text": "Structural clauses of the model language only: modifier-to-combinator binding and reduction order, trans shift, parse-tree walker (ranges, nesting), grammar/consumer name agreement, builder argument order, positional parameter binding and mutual registration of custom formulas, signature parsing, documented modifiers/pymath names, key normalisation and delimiters - each by abstract evaluation of the real functions on opaque arguments or by syntax-tree comparison. The semantics of cexprtk expressions and pyparsing matching are not decided.",
+            "text": "Structural clauses of the model language only: modifier-to-combinator binding and reduction order, trans shift, parse-tree walker (ranges, nesting), grammar/consumer name agreement, builder argument order, positional parameter binding and mutual registration of custom formulas, signature parsing, documented modifiers/pymath names, every pymath wrapper forwarding its arguments in order to math.NAME, key normalisation and delimiters - each by abstract evaluation of the real functions on opaque arguments or by syntax-tree comparison. The semantics of cexprtk expressions and pyparsing matching are not decided.",
             "note": _N + " " + _L, "technique": "abstract interpretation over opaque operands + grammar/consumer name agreement on the syntax tree"},
     "C12": {"engine": "E-TAINT", "level": "other", "design_ref": "DESIGN.md section 4 C12 and section 11",
             "text": "Hash-order taint (unsorted set iteration -> containers -> fields/arguments/returns -> output effects) over the whole package with a must-flag positive example; shared-state rules (global statements, module/class-level containers, factory singletons, mutable defaults and the fields storing them); purity of custom-formula evaluation (unconditional re-binding, no call state; abstract evaluation of interleaved calls); write-once caches; nondeterminism sources.",
@@ -86,11 +86,11 @@ CHECKS.update({
             "text": "For a file with every section kind, every raw section view and every ConfigParser accessor is evaluated with and without a block of unreferenced variables named like options of each section and must agree; placeholders equal textual substitution; parser construction arguments; deny-list of default-merging parser APIs.",
             "note": _N + " " + _L, "technique": "differential abstract evaluation over a library-contract model + who-may-call lint"},
     "C16": {"engine": "E-SYM", "level": "other", "design_ref": "DESIGN.md section 4 C16 and section 11",
-            "text": "Error-discipline conformance: undefined-name pass over all functions, who-may-raise rule on the configuration modules, exhaustive input-partition evaluation of every validating function (keys, numbers, table-form option subsets, spline/trans part counts and r_min positions, configparser error classes, unknown names), denominators versus accepted row counts per target, main()'s conversion, documented-valid subset of accepted values.",
+            "text": "Error-discipline conformance: undefined-name pass over all functions, who-may-raise rule on the configuration modules, exhaustive input-partition evaluation of every validating function (keys, numbers, table-form option subsets, spline/trans part counts and r_min positions, configparser error classes, unknown names), names the expression library refuses, wrong arity in nested custom-form calls, handlers that would swallow a user-input error, denominators versus accepted row counts per target, main()'s conversion, documented-valid subset of accepted values.",
             "note": _N + " " + _L + " Python can raise from almost anything: this is conformance to the enumerated partitions and rules.",
             "technique": "symbol-table lint + who-may-raise rule + finite input-partition abstract evaluation + division-site analysis"},
     "C18": {"engine": "E-SYM", "level": "other", "design_ref": "DESIGN.md section 4 C18 and section 11",
-            "text": "Table form construction arguments (ext=1 only), derivative objects, xy de-interleaving on every parity, TableReader.getValue on every position of x for tables of 1..4 points with symbolic ordinates (comparison-only premise), DatReader on every class of input line, plotToFile and wrappers as output trees.",
+            "text": "Table form construction arguments (ext=1 only), derivative objects, xy de-interleaving on every parity, TableReader.getValue on every position of x for tables of 1..4 (thorough: 1..7) points with symbolic ordinates (comparison-only premise), DatReader on every class of input line, plotToFile and wrappers as output trees.",
             "note": _N + " scipy's interpolation property itself is an assumption.", "technique": "finite-domain abstract evaluation + output-tree equality"},
     "C20": {"engine": "E-SYM", "level": "other", "design_ref": "DESIGN.md section 4 C20 and section 11",
             "text": "Every kind of duplication named in the property evaluated on the real parser overrides over the strict base-class model (whitespace variants, repeated sections), the constructor's reversed-pair and table-form-name checks, registry clashes in every role (table form vs formula vs built-in incl. forms registered last), repeated A->B densities; optionxform == dictionary transform for every key.",
